@@ -66,6 +66,10 @@ def kind? : String → Option JoinKind
   | "inner" => some .inner | "left" => some .left | "right" => some .right | "full" => some .full
   | _ => none
 
+/-- `1,2,3` or `-` -/
+def ints? (s : String) : Option (List Int) :=
+  if s == "-" then some [] else (s.splitOn ",").mapM parseInt?
+
 /-- rows: one `Val` that must be a list -/
 def rows? (toks : List String) : Option (List Val × List String) :=
   match Val.parse (toks.length + 1) toks with
@@ -114,6 +118,13 @@ def step? : Nat → List String → Option (Step × List String)
     | "distinct" :: r => some (.distinct, r)
     | "distinct_per_key" :: r => some (.distinctPerKey, r)
     | "top_k_per_key" :: k :: r => (parseNat? k).map (fun k => (.topKPerKey k, r))
+    | "map_side" :: side :: r => (ints? side).map (fun l => (.mapSide l, r))
+    | "filter_side" :: side :: r => (ints? side).map (fun l => (.filterSide l, r))
+    | "try_map" :: r => some (.tryMap, r)
+    | "unresult" :: r => some (.unresult, r)
+    | "debug_inspect" :: r => some (.debugInspect, r)
+    | "debug_count" :: r => some (.debugCount, r)
+    | "debug_sample" :: n :: r => (parseNat? n).map (fun n => (.debugSample n, r))
     | "join" :: k :: "[" :: r => do
         let k ← kind? k
         let (src, r) ← rows? r
